@@ -27,8 +27,8 @@ func init() {
 						if peer == "nodrain" && (mode == "none" && size > 100 && extra != "localclose") {
 							continue // Flush legitimately waits for ever
 						}
-						if extra == "twice" && (peer != "drain-big" || mode != "none") {
-							continue
+						if extra == "twice" && (peer != "drain-big" || (mode != "none" && size == 100)) {
+							continue // twice+timeout: the reused write timer has a history when the second flush waits
 						}
 						if extra == "flush2" && (peer == "close" || mode == "timeout") {
 							continue // flushing again after a reported write error is outside the guarantee (C04 scope)
